@@ -9,6 +9,7 @@ import (
 	"os"
 	"runtime"
 	"strconv"
+	"strings"
 )
 
 type PreHook func(*Zlisp, string, []Sexp)
@@ -716,6 +717,10 @@ func (env *Zlisp) ParseFile(file string) ([]Sexp, error) {
 
 func (env *Zlisp) LoadStream(stream io.RuneScanner) error {
 	env.parser.ResetAddNewInput(stream)
+	// The whole text is here: terminate it, so that a final atom with
+	// nothing after it ("42", "x") is delivered instead of staying in the
+	// lexer's buffer. A newline is whitespace wherever a text may end.
+	env.parser.lexer.AddNextStream(strings.NewReader("\n"))
 	expressions, err := env.parser.ParseTokens()
 	if err != nil {
 		return fmt.Errorf("Error on line %d: %v (LoadStream err='%#v')\n", env.parser.Linenum(), err, err)
